@@ -30,15 +30,6 @@ ZERO = ["none", "int0", "strEmpty", "float0", "boolF"]
 F("DOC-no-type-no-prose-param-dropped", DOCP,
   "a parameter with neither type nor prose produces no line in a ReST docstring and disappears",
   ["NamePresent", "StyleDetected"], when={"k": "rest"}, slot=["none", "none", ANY, ANY, ANY])
-"""DISABLED
-F("NUMPYDOC-untyped-param", DOCP,
-  "numpydoc scanner/parser mishandles an entry whose type is empty (`name :`): the entry, later entries, the summary and the "
-  "return section are mis-attributed or lost, or the parser raises",
-  ["NamePresent", "NoExtraNames", "NamesOrder", "SummaryKept", "RetKept.present", "RetKept.typ", "RetKept.def", "RetKept.base",
-   "RetKept.stop", "RetKept.ann", "ProseKept.base", "ProseKept.stop", "ProseKept.ann", "TypKept", "DefaultKept", "DefaultFill",
-   "NeverRaises"],
-  when={"k": "numpydoc", "step": "parse"}, any_slot=["none", ANY, ANY, ANY, ANY])
-"""
 F("NPG-force-future-default", DOCP,
   "numpydoc/google parser: once one entry has a default, every later entry without one (including the return entry) "
   "acquires the zero value of its type or None (`require_default`)",
@@ -273,6 +264,23 @@ FIXED += [
     "fixed: property=C18 998fc6f DOCTRANS_LINE_LENGTH reached textwrap as a str: every emitter raised TypeError when it was set",
     "fixed: property=C15 c54fd17 find_in_ast consumed a path segment at every FunctionDef it walked past (wrong node / not found)",
     "fixed: property=C15 c37504d RewriteAtQuery matched by the non-unique two-segment _location (wrong or no node replaced below depth two)",
+]
+
+FIXED += [
+    "fixed: property=C10 1f22a3d sync re-emitted and rewrote the file holding the source of truth (the truth was conformed to itself)",
+    "fixed: property=C09 2b090a1 sync raised TypeError when a function target file had to be created (_default_options not passed on)",
+    "fixed: property=C09 3a4c0f7 sync raised when only two of the three kinds were named on the command line",
+    "fixed: property=C11 5aa0c3c appending a definition to a file whose last line had no newline glued the definition to that line (file no longer parsed)",
+    "fixed: property=C10 600f800 sync reported a file as modified by comparing syntax trees of differently constructed nodes (always different) instead of the bytes written",
+    "fixed: property=C20 9d0bfb8 emit.file truncated the target and then wrote: a fault in between left an empty or half-written file",
+    "fixed: property=C20 e221bb6 sync accepted --class / --function / --argparse-function without its name (or a name without its file) and failed later with an internal error",
+    "fixed: property=C13 0934082 emitters modified the interface description they were given (class emitter moved the return entry into the parameters; later emitters saw it)",
+    "fixed: property=C07 e937248 parse.function padded the signature's defaults from the front with a fixed count: defaults attached to the wrong parameters",
+    "fixed: property=C14 b9d1348 sync_properties wrapped the input node itself: a second pair from the same input location was wrapped twice",
+    "fixed: property=C19 f2df3a6 gen failed for --type function, for several import lines (glued without newlines) and for annotated callables",
+    "fixed: property=C01 49fdcc0 numpydoc: an entry without a type (`name :`) was taken for the heading of a trailing section; later entries, summary and return were mis-attributed",
+    "fixed: property=C04 1d31407 parse.argparse_ast raised on add_argument(choices=...) whose members are not strings",
+    "fixed: property=C04 0596b8f emit.argparse_function raised on a return default that is not a string",
 ]
 
 # ------------------------------------------------------------------------------------------------ sync (C09, C10, C11, C20)
